@@ -32,7 +32,7 @@ ASSUMPTIONS = [
 ]
 BUDGET = {"quick": {"examples": 12000, "seconds": 60}, "thorough": {"examples": 400000, "seconds": 1500}}
 
-OPS = {"arith", "math", "cond", "index", "tensor", "compound", "pow", "abs", "sign", "math2", "bessel", "shortcut",
+OPS = {"arith", "math", "cond", "index", "tensor", "compound", "pow", "abs", "sign", "math2", "bessel", "shortcut", "capture",
        "eqne", "logic", "pylit", "absfree", "powx", "oddshape", "elem"}
 REAL = Profile(ops=OPS, leaves={"coef", "const", "lit", "zero", "eye", "x", "perm"}, max_rank=3, elements="all", manifolds=True)
 CPLX = Profile(ops=(OPS - {"sign", "cond", "bessel", "math2", "logic", "eqne"}) | {"complexops"}, cplx=True,
@@ -156,6 +156,9 @@ def check_case(case):
     except RecursionError:
         raise Violation("construction recursed without end: a constructor produced a node that contains itself", {"kind": "cycle"})
     except Exception as ex:
+        if isinstance(ex, ValueError) and "Not expecting free indices" in str(ex):
+            # the explicit refusal of the operators that are defined for index-free operands only
+            raise Discard("refused: free indices in an index-free operator")
         # the model accepted this program: the public constructor must accept it too
         raise Violation(f"constructor raised {type(ex).__name__}: {str(ex)[:300]}", {"kind": "raised:" + exc_bucket(ex)})
     if not isinstance(e, Expr):
